@@ -405,9 +405,18 @@ func genFilterCase(r *prng.R, id string, allOrders bool, benignBias bool, withEn
 		ops = append(ops, "load perm="+permStr(p))
 		ops = append(ops, reqs...)
 	}
+	// the same requests answered by a processor (early response): the response walk without a response object
+	for _, q := range reqs {
+		if strings.HasPrefix(q, "req ") && r.Chance(35) {
+			ops = append(ops, "early "+strings.TrimPrefix(q, "req "))
+		}
+	}
 	if withEngine {
 		for _, q := range reqs {
 			ops = append(ops, "eng "+q)
+			if strings.HasPrefix(q, "req ") {
+				ops = append(ops, "eng early "+strings.TrimPrefix(q, "req "))
+			}
 		}
 	}
 	return proto.Case{ID: id, Ops: ops}
